@@ -1,7 +1,10 @@
 import PyttbModel.Driver.C07
 import PyttbModel.Driver.C17
 import PyttbModel.Ops.MultilinearKT
+import PyttbModel.Ops.MultilinearTS
+import PyttbModel.Ops.MultilinearTtsv
 import PyttbModel.Spec.Multilinear
+import PyttbModel.Spec.MultilinearTtsv
 open Lean Pyttb Pyttb.Codec
 namespace Pyttb.Driver
 
@@ -84,6 +87,27 @@ def reducer (name : String) : R (List Rat → Rat) :=
   | "count" => .ok fun l => (l.filter (· != 0)).length
   | "sumabs" => .ok fun l => (l.map fun x => if x < 0 then -x else x).sum
   | _ => .error s!"unknown reducer {name}"
+
+
+/-- A Tucker tensor whose core is dense (`{"shape","data"}`) or sparse (`{"shape","subs","vals"}`). -/
+def asTuckerAny (j : Json) : R (TuckerAny Rat) := do
+  let cj ← field j "core"
+  let fs ← field j "factors" >>= asList asRatMat
+  match fieldOpt cj "subs" with
+  | some _ => do let c ← asSparse cj; .ok (.sparseCore ⟨c, fs⟩)
+  | none => do let c ← asDense cj; .ok (.denseCore ⟨c, fs⟩)
+
+/-- The dense-core Tucker tensor with the same entries (spec side only). -/
+def tuckerAnyExpand : TuckerAny Rat → Ttensor Rat
+  | .denseCore t => t
+  | .sparseCore t => ⟨t.core.full, t.factors⟩
+
+def ttsvResJ : ML.TtsvRes Rat → Json
+  | .scalar v => scalarJ v
+  | .vec v => Json.mkObj [("kind", Json.str "vec"), ("data", ratsJ v)]
+  | .mat t => Json.mkObj [("kind", Json.str "mat"),
+      ("rows", ratMatJ (reshape2 t.data (t.shape.getD 0 0) (t.shape.getD 1 0)))]
+  | .tensor t => tag "dense" (denseJ t)
 
 def ops02 : List (String × Op) := [
   ("c02_ttv", fun j => do
@@ -267,7 +291,7 @@ def ops02 : List (String × Op) := [
     let spec := specTab outShape (Spec.ttm D sel ent)
     .ok (both (exceptJ (fun o => tag "dense" (denseJ o)) (T.reconstruct samples modes)) spec)),
   ("c02_tucker_sp", fun j => do
-    -- Tucker tensor with a sparse core: `full` (what = "full") or `ttv`
+    -- Tucker tensor with a sparse core: `full`, `ttv`, `innerprod`, `norm`, `mttkrp`
     let Xj ← field j "X"
     let core ← field Xj "core" >>= asSparse
     let fs ← field Xj "factors" >>= asList asRatMat
@@ -277,6 +301,37 @@ def ops02 : List (String × Op) := [
     let what ← field j "what" >>= asStr
     if what == "full" then
       .ok (both (exceptJ (fun o => tag "dense" (denseJ o)) T.full) (tag "dense" (denseJ (Den.tab D))))
+    else if what == "norm" then
+      .ok (both (exceptJ ratJ T.normSq) (ratJ (Spec.normSq D)))
+    else if what == "innerprod" then do
+      -- `X.innerprod(Y)` or (`rev`) `Y.innerprod(X)`; `Y` dense / sparse / Kruskal / Tucker of either core kind
+      let Yj ← field j "Y"
+      let yk ← field Yj "kind" >>= asStr
+      let rev := (fieldOpt j "rev").isSome
+      if yk == "tucker" then do
+        let Y ← asTuckerAny Yj
+        let DY := holderDen (.inl (.tucker (tuckerAnyExpand Y)))
+        let model := if rev then TuckerAny.innerprodT Y (.sparseCore T) else TuckerAny.innerprodT (.sparseCore T) Y
+        .ok (both (exceptJ ratJ model) (ratJ (Spec.inner D DY)))
+      else do
+        let Y ← asPart Yj
+        let DY := holderDen (.inl Y)
+        -- dense / sparse / Kruskal operands reverse their arguments and run the Tucker code
+        let model : Json := match Y with
+          | .dense y => exceptJ ratJ (T.innerprodDense y)
+          | .sparse y => exceptJ ratJ (T.innerprodSparse y)
+          | .kruskal y => exceptJ ratJ (T.innerprodKruskal y)
+          | .tucker _ => rejectJ
+        .ok (both model (ratJ (Spec.inner D DY)))
+    else if what == "mttkrp" then do
+      let U ← field j "U" >>= asKOperand
+      let n ← field j "n" >>= asNat
+      let ufs ← field j "fs" >>= asList asRatMat
+      let lam ← field j "lam" >>= asRats
+      let R := lam.length
+      let spec := matJ ((List.range (D.shape.getD n 0)).map fun i => (List.range R).map fun r =>
+        Spec.mttkrp D (fun m a c => Mat.get (ufs.getD m []) a c) (fun r => lam.getD r 0) n i r)
+      .ok (both (exceptJ matJ (T.mttkrp U n)) spec)
     else do
       let vs ← field j "vs" >>= asList asRats
       let dims ← optInts j "dims"
@@ -289,7 +344,19 @@ def ops02 : List (String × Op) := [
         | .sparseCore t => Json.mkObj [("kind", Json.str "tucker"), ("core", tag "sparse" (sparseJ t.core)),
                                        ("factors", listJ ratMatJ t.factors)]
       let spec := specTab (Spec.ttvShape D.shape sel) (Spec.ttv D sel (vecAt sel ws))
-      .ok (both (exceptJ (sorJ tuckerAnyJ) (T.ttv vs dims excl)) spec))
+      .ok (both (exceptJ (sorJ tuckerAnyJ) (T.ttv vs dims excl)) spec)),
+  ("c02_ttsv", fun j => do
+    -- `tensor.ttsv(x, skip_dim, version)`; `dnew` = number of kept modes (spec side, chosen by the harness)
+    let X ← field j "X" >>= asDense
+    let x ← field j "x" >>= asRats
+    let skip ← match fieldOpt j "skip" with
+      | none => pure none
+      | some v => do let s ← asInt v; pure (some s)
+    let vs ← field j "ver" >>= asStr
+    let ver : ML.TtsvVer := if vs == "none" then .default else if vs == "1" then .v1 else if vs == "2" then .v2 else .other
+    let dnew ← field j "dnew" >>= asNat
+    let spec := specTab (Spec.ttsvShape X.shape dnew) (Spec.ttsv X.den x dnew)
+    .ok (both (exceptJ ttsvResJ (X.ttsv x skip ver)) spec))
 ]
 
 end Pyttb.Driver
